@@ -37,5 +37,15 @@ ASSUME \A j \in 1..Len(VzKs) : PrintT(<<"PLAN", ToJson(VzRec(VzKs[j]))>>)
 \* is O although P_A + [xbar]R_A is not: step B5 must fail (a test of the point BEFORE the multiplication by t_B does not see it)
 TzRec(k) == [kind |-> "tzero", da |-> KXDA, db |-> B32(VzDa(k)), rb |-> k, check |-> IF BAddMod(VzDa(k), BMulMod(Xbar(Mul(k, G)), BFromBE(k), NN), NN) = BZero /\ VzDa(k) # BZero THEN 1 ELSE 0]
 ASSUME \A j \in 1..Len(VzKs) : PrintT(<<"PLAN", ToJson(TzRec(VzKs[j]))>>)
+\* an honest run whose derived key is ALL ZERO (klen = 1: one run in 256): GB/T 32918.3 has no "key stream is zero" rejection -- that belongs to the encryption
+\* scheme --, so both parties must finish with the key 00.  The responder's ephemeral scalar is searched among 2, 3, ... for the Annex keys, rA = Annex rA.
+IdAlice == <<97, 108, 105, 99, 101>>
+IdBob == <<98, 111, 98>>
+KzScalar(i) == <<i \div 256, i % 256>>
+KzV(i) == SharedPt(TScalar(BFromBE(KXDB), BFromBE(KzScalar(i)), MulN(BFromBE(KzScalar(i)), G)), PAx, FRA)
+RECURSIVE FindKz(_, _)
+FindKz(i, lim) == IF i > lim THEN 0 ELSE IF KzV(i) # C!Inf /\ KxKey(KzV(i), ZA(IdAlice, PAx), ZA(IdBob, PBx), 1) = <<0>> THEN i ELSE FindKz(i + 1, lim)
+KzRec(i) == [kind |-> "kzero", da |-> KXDA, db |-> KXDB, ra |-> KXRA, rb |-> B32(BFromBE(KzScalar(i))), check |-> IF i = 0 THEN 0 ELSE 1]
+ASSUME PrintT(<<"PLAN", ToJson(KzRec(FindKz(2, 3000)))>>)
 Emit == kkind # "none" => PrintT(<<"PLAN", ToJson([ra |-> InSub("RA"), rb |-> InSub("RB"), sb |-> InSub("SB"), sa |-> InSub("SA"), kind |-> kkind])>>)
 =============================================================================
